@@ -20,6 +20,9 @@ type Scenario struct {
 	How      string `json:"how"`      // dispose|force|ctx|twice|disposeThenForce
 	Handlers bool   `json:"handlers"` // machine has handlers bound
 	Subs     bool   `json:"subs"`     // outstanding subscriptions / contexts
+	// Detach: the handlers are bound, used, and all detached again before the
+	// disposal lands (the handler loop keeps running: it must still exit)
+	Detach bool `json:"detach"`
 }
 
 type StageEv struct {
@@ -114,6 +117,7 @@ func Run(sc Scenario) (lines []any) {
 			m.DisposeForce()
 		}
 	}
+	var hid string
 	if sc.Handlers {
 		neg := map[string]am.HandlerNegotiation{
 			"AEnter": func(e *am.Event) bool {
@@ -140,10 +144,13 @@ func Run(sc Scenario) (lines []any) {
 				}
 			},
 		}
-		_, _ = m.HandlersBindMaps(neg, fin)
+		hid, _ = m.HandlersBindMaps(neg, fin)
 	}
 	m.Add1("B", nil)
 	m.Add1("Start", nil)
+	if sc.Handlers && sc.Detach {
+		_ = m.HandlersDetach(hid)
+	}
 
 	// outstanding waiters
 	chans := map[string]<-chan struct{}{}
